@@ -245,3 +245,19 @@ PROPS["C10"] = dict(
            dict(name="manager", run="^TestC10ManagerFaults$", quick=160, thorough=500, shards_quick=2, shards_thorough=16, timeout=1500),
            dict(name="regress", kind="plain", run="^TestC10Regress", quick=None, thorough=None)],
 )
+
+PROPS["C06"] = dict(
+    pkg="c06", level="exploration",
+    rule=("a complete wallet (four default scopes x accounts 0,1, external and change addresses) gets a generated history through the model backend: confirmed and unconfirmed receipts on every "
+          "address type, a coinbase paying the wallet brought to 98-102 confirmations, spends by the wallet itself and by another spender of the same keys (mined or unconfirmed), reorgs of depth 1-2, "
+          "LockOutpoint/UnlockOutpoint, LeaseOutput/ReleaseOutput with two identifiers; then 1-6 requests (12 thorough): CreateSimpleTx (dry run or signed; optionally WithCustomSelectUtxos), SendOutputs, "
+          "SendOutputsWithInput (explicit inputs drawn from eligible, ineligible and foreign outpoints, sometimes with a duplicate), FundPsbt; scope nil or one of four, account 0/1, minconf "
+          "0,1,2,3,99,100,101, fee rate 1000-500000 sat/kvB, largest/random selection, 1-5 outputs to P2PKH/P2SH/P2WPKH/P2WSH/P2TR, sometimes overspending. For every successful result each input must be "
+          "in the harness ledger's eligible set for that request, used once, not an input of an earlier published transaction; signed results are verified input by input with txscript.NewEngine under "
+          "StandardVerifyFlags using previous scripts and amounts from the ledger; requested outputs present unchanged; an explicit selection with an ineligible/foreign/duplicate outpoint must be refused; "
+          "a refused request leaves balances, spendable set and mempool unchanged. Non-trivial = a successful result while >= 2 different kinds of ineligible coins existed."),
+    assumptions=_WALLET_ASSUME + ["change addresses created by the wallet are registered in the ledger from Wallet.AddressInfo (their derivation is C03's business)",
+                                 "refusals for lack of funds are counted, not judged (fee bounds are C07's business)",
+                                 "spends from the reserved imported-keys account are not generated (returned unsigned by design)"],
+    units=[dict(name="eligible", run="^TestC06EligibleInputs$", quick=500, thorough=2000, shards_quick=2, shards_thorough=16, timeout=1500)],
+)
